@@ -399,6 +399,7 @@ func c01(r *Report) {
 			r.Sites++
 			r.Decide("callgraph", "caller of the exchange function: "+site(f, c), ok, "plain call from the connection loop or the CONNECT hand-off", "the exchange function is started concurrently or from an unexpected caller: responses can be reordered", c.Pos())
 		}
+		r.dynamicCallerRule(handle, "exchanges could then run concurrently on one connection")
 		// and it is not used as a function value
 		for _, f := range w.Funcs("") {
 			for _, in := range instrs(f) {
